@@ -136,6 +136,9 @@ F12 == {A(<<<<1, -1>>>>, <<2>>, 2), A(<<<<0, 0>>>>, <<0>>, 2)}
 F21 == {A(<<<<1>>, <<-2>>>>, <<0, 1>>, 1)}
 F32 == {A(<<<<1, 0>>, <<0, 0>>, <<0, 2>>>>, <<0, 0, 1>>, 2), A(<<<<0, 0>>, <<0, 0>>, <<0, 0>>>>, <<1, 0, 0>>, 2), A(<<<<0, 0>>, <<1, 1>>, <<0, 0>>>>, <<-2, 0, 0>>, 2)}
 Z22 == A(<<<<0, 3>>, <<0, -1>>>>, <<1, 1>>, 2)
+\* a column whose non-zero entries cancel in sum, and a constant function (all-zero matrix)
+Q22 == A(<<<<1, 2>>, <<-1, 3>>>>, <<0, 1>>, 2)
+C22 == A(<<<<0, 0>>, <<0, 0>>>>, <<3, -2>>, 2)
 F23 == {A(<<<<1, 0, -1>>, <<2, 1, 0>>>>, <<0, 1>>, 3)}
 F33 == {A(<<<<1, 2, 0>>, <<0, 1, -1>>, <<3, 0, 1>>>>, <<1, 0, -1>>, 3)}
 F11 == {A(<<<<-3>>>>, <<2>>, 1)}
@@ -143,7 +146,7 @@ F11 == {A(<<<<-3>>>>, <<2>>, 1)}
 FX == {A(<<<<2, -3, 5>>>>, <<-4>>, 3), A(<<<<1>>, <<0>>, <<-7>>>>, <<3, -3, 0>>, 1), A(<<<<1, 2>>, <<-3, 4>>, <<5, -6>>, <<0, 0>>>>, <<1, -1, 2, 0>>, 2),
        A(<<<<0, 1, 0>>, <<0, 0, 1>>, <<1, 0, 0>>>>, <<0, 0, 0>>, 3), A(<<<<1, 0, 0>>, <<0, 1, 0>>>>, <<0, 0>>, 3), A(<<<<-9, 7>>, <<11, -13>>>>, <<17, -19>>, 2),
        A(<<<<6, 0>>, <<0, 0>>>>, <<0, 5>>, 2)}
-AllF == F22 \cup F12 \cup F21 \cup F32 \cup {Z22} \cup F23 \cup F33 \cup F11 \cup (IF NP >= 1 THEN FX ELSE {})
+AllF == F22 \cup F12 \cup F21 \cup F32 \cup {Z22, Q22, C22} \cup F23 \cup F33 \cup F11 \cup (IF NP >= 1 THEN FX ELSE {})
 \* dividend / divisor pairs with exact quotients and no zero divisor entries
 DivPairs == {<<A(<<<<4, -6>>, <<2, 8>>>>, <<6, -4>>, 2), A(<<<<2, 3>>, <<-1, 4>>>>, <<3, -2>>, 2)>>,
              <<A(<<<<7, -5>>, <<3, 8>>>>, <<6, -7>>, 2), A(<<<<2, 3>>, <<-2, 3>>>>, <<4, -2>>, 2)>>}
@@ -173,7 +176,7 @@ AffOps ==
     {[op |-> "ctor", ctor |-> c] : c \in {x \in AffCtors : ValidCtor(x)}}
     \cup {[op |-> "compose", f |-> f, g |-> g] : f \in AllF, g \in AllF}
     \cup {[op |-> "stack", f |-> f, g |-> g] : f \in AllF, g \in AllF}
-    \cup {[op |-> o, f |-> f, g |-> g] : o \in {"add", "sub", "mul"}, f \in F22 \cup {Z22}, g \in F22}
+    \cup {[op |-> o, f |-> f, g |-> g] : o \in {"add", "sub", "mul"}, f \in F22 \cup {Z22}, g \in F22 \cup {C22, Q22}}
     \cup {[op |-> o, f |-> pr[1], g |-> pr[2]] : o \in {"div", "rem"}, pr \in DivPairs}
     \cup {[op |-> o, f |-> f] : o \in {"neg", "row_iter", "remove_zero_rows", "remove_zero_columns", "from_row_iter", "view_owned", "as_polytope", "as_function"}, f \in AllF}
     \cup {[op |-> o, f |-> f, den |-> 2] : o \in {"apply", "apply_transpose"}, f \in AllF}
